@@ -75,7 +75,7 @@ func genRejection(t *rapid.T, sc *Scenario) string {
 		}
 		return "pre:unknown_compression"
 	case "bad_timeout":
-		c.Timeout = rapid.SampledFrom([]string{"abc", "12x", "-5", "1 S", "999999999S", "1.5.2", "∞"}).Draw(t, "bad_timeout")
+		c.Timeout = rapid.SampledFrom([]string{"abc", "12x", "-5", "1 S", "999999999S", "999999999H", "1.5.2", "∞"}).Draw(t, "bad_timeout")
 		if c.Timeout == "∞" {
 			c.Timeout = "xx"
 		}
